@@ -670,6 +670,11 @@ fn op_applied_to_last_axis<Op: OperatorAxis + 'static>(graph: &Graph, node_id: N
     input_last_axis == Some(axis)
 }
 
+/// Test if a constant or value node is known to have at most one dimension.
+fn is_scalar_or_vector(graph: &Graph, node_id: NodeId) -> bool {
+    graph.get_rank(node_id).is_some_and(|ndim| ndim <= 1)
+}
+
 /// Identify and fuse common patterns for `LayerNormalization(X)`.
 pub struct LayerNormalizationFusion {}
 
@@ -736,6 +741,16 @@ impl PatternFusion for LayerNormalizationFusion {
             .get_scalar(epsilon_input)
             .ok_or(FusionError::CheckFailed("epsilon not a scalar"))?;
 
+        // The fused operator only accepts scale and bias values which can be
+        // broadcast to the normalized (last) axis.
+        for name in ["scale", "bias"] {
+            if let Some(id) = pat_match.node_id(name)
+                && !is_scalar_or_vector(graph, id)
+            {
+                return Err(FusionError::CheckFailed("scale or bias is not a vector"));
+            }
+        }
+
         Ok(LayerNormalization {
             axis: -1,
             epsilon: Some(epsilon),
@@ -793,6 +808,13 @@ impl PatternFusion for RMSNormalizationFusion {
 
         if !op_applied_to_last_axis::<ReduceMean>(graph, norm_mean) {
             return Err(FusionError::CheckFailed("not applied to last axis"));
+        }
+
+        // The fused operator only accepts scale values which can be broadcast
+        // to the normalized (last) axis.
+        let scale_input = rms_match.node_id("scale").unwrap();
+        if !is_scalar_or_vector(graph, scale_input) {
+            return Err(FusionError::CheckFailed("scale is not a vector"));
         }
 
         Ok(RMSNormalization {
